@@ -1,8 +1,17 @@
 """Configuration of ./check C02 (see lib/registry.py for the fields)."""
-DEBUG = dict(
-    claim="debug: end-to-end rig and spec predicates of C02; theorems pending (Model/Sys.v)",
-    props="Props/C08.v",
-    theorems=[],
+CFG = dict(
+    claim="PARTIAL. Model: coq/Model/Sys.v (client model x server model x two FIFO wires), arbitrary caller and handler programs, any "
+          "number of streams, any interleaving. Proved in coq/Props/C02.v: the transport-level half, per stream id and position by "
+          "position: C02_wire_c2s_prefix_partial / C02_wire_s2c_prefix_partial (what a side has read for a stream is a prefix of what the "
+          "other side wrote for it: no loss, duplication, reordering, alteration, fabrication) and C02_wire_complete_partial (equal once "
+          "wires and read queues are empty). NOT proved: the API-level clauses (RecvMsg results as prefixes of SendMsg arguments, handler "
+          "EOF iff half-closed and drained, caller EOF sound and complete): they need per-id FIFO facts of the two component models that "
+          "do not exist yet. The tie: the boolean predicates spec_c02 of coq/Check/C02c.v (position-wise delivery in both directions, "
+          "handler EOF only after half-close with nothing outstanding, caller EOF only after the handler returned nil with nothing "
+          "outstanding, no non-EOF failure of a successful stream - the Canceled-instead-of-EOF outcome -, nothing hangs) are evaluated "
+          "on every history recorded from the REAL client connection + server.",
+    props="Props/C02.v",
+    theorems=["C02_wire_c2s_prefix_partial", "C02_wire_s2c_prefix_partial", "C02_wire_complete_partial"],
     imports=["Check.SysC", "Check.C02c"],
     case_type="c02case",
     find_bad_from="find_bad_from",
@@ -15,7 +24,19 @@ DEBUG = dict(
                  "6": "a receive failed with something else than io.EOF on a fault-free, uncancelled stream whose handler did not fail (e.g. Canceled instead of EOF)",
                  "7": "at the end of a complete schedule an operation had never returned",
                  "8": "an open, send or half-close failed on a stream whose handler had not returned"},
-    rule="real goat.ClientConn - in-memory FIFO wires - real goat.Server (direct, through the real Proxy, through the real Demux; serialising "
-         "and by-reference wires) inside synctest bubbles",
-    assumptions=[],
+    rule="real goat.ClientConn - in-memory FIFO wires - real goat.Server inside synctest bubbles; caller and handler programs are data. "
+         "(A) directed: the terminal Recv (or the last Send) parked at the cs.recv.checked / cs.send.checked yield point after its "
+         "done-check, everything else run to completion (trailer delivered, stream torn down), then released: 3 kinds x {0,1,2} messages "
+         "x {echo, burst, reply-after-EOF}; (B) seeded random lock-step schedules over {user step, handler step, deliver c2s, deliver "
+         "s2c, release}: 1..4 (thorough up to 32) concurrent streams x 3 kinds x counts {0,1,2,5,20} (thorough 50, 200) x caller programs "
+         "{send-all-then-receive, ping-pong, concurrent sender + receiver threads, early half-close, receive-only} x handler programs "
+         "{echo, burst n, reply-after-EOF, return-before-EOF, recv 1 + burst n; 1 in 8 returning an error status} x a yield placement, "
+         "direct / Proxy / Demux, serialising / by-reference; (C) free-running: sender and receiver goroutines per stream, 2..8 "
+         "(thorough 32) streams, GOMAXPROCS 1/4/16, payloads up to 64 KiB; every history judged by spec_c02",
+    assumptions=["payload bytes are identified by a 59-bit hash taken at the moment of each observation",
+                 "handler and stream are linked by a request-metadata tag (sy-k)",
+                 "quiescence after a lock-step action is synctest.Wait, or - when the server's read loop may be holding its registry "
+                 "mutex while a stream queue is full, so that a returning handler waits for a sync.Mutex - two identical all-blocked "
+                 "goroutine dumps with no event in between",
+                 "through the Proxy at most 14 envelopes are in flight per direction (its 16-slot overflow is finding D-16 of C16)"],
 )
